@@ -12,17 +12,22 @@ JOIN = {';': ' ; ', '&&': ' && ', '||': ' || ', '|': ' | '}
 PROC_EVENTS = ('proc.exec', 'proc.waitprev', 'proc.destroy', 'proc.dereg', 'proc.dereg2')
 
 
-def render(case):
+def render(case, slow=0):
+    """slow: bit k set = command k (exit 0 only) takes 20 ms, so that later commands of a pipeline can finish first"""
     body = ''
     for k, c in enumerate(case['prog']):
         if k:
             body += JOIN[c['op']]
-        body += 'true' if c['exit'] == 0 else 'false'
+        body += ('sleep 0.02' if slow >> k & 1 else 'true') if c['exit'] == 0 else 'false'
     return body if case['mode'] == 'normal' else '%s { %s }' % (case['mode'], body)
 
 
 def pk(case):
     return '%s:%s' % (case['mode'], ' '.join('%s%d' % (k['op'] if k['op'] != 'first' else '', k['exit']) for k in case['prog']))
+
+
+def slow_of(i, perturb):
+    return (i * 2654435761 + perturb * 40503) >> 7 & 31 if perturb else 0
 
 
 def record(ck, cases, perturb, tag):
@@ -31,7 +36,7 @@ def record(ck, cases, perturb, tag):
     shards = min(common.NCPU, max(1, len(cases) // 50))
     procs = []
     for s in range(shards):
-        part = [{'id': i + 1, 'src': render(c), 'timeout_ms': 20000} for i, c in enumerate(cases) if i % shards == s]
+        part = [{'id': i + 1, 'src': render(c, slow_of(i, perturb)), 'timeout_ms': 20000} for i, c in enumerate(cases) if i % shards == s]
         inp = os.path.join(ck.scratch, '%s-in-%d.ndjson' % (tag, s))
         outp = os.path.join(ck.scratch, '%s-out-%d.ndjson' % (tag, s))
         evp = os.path.join(ck.scratch, '%s-ev-%d.ndjson' % (tag, s))
@@ -65,16 +70,16 @@ def record(ck, cases, perturb, tag):
         n = len(c['prog'])
         if not t['ended']:
             continue
-        # the block under observation: the one whose processes are the n true/false commands
+        # the block under observation: the one whose processes are the n true/false/sleep commands
         blocks = {}
         for e in t['evs']:
-            if e['ev'] == 'rm.spawn' and e.get('names') and all(x == 'expr' for x in e['names']) and len(e['fids']) == n:
+            if e['ev'] == 'rm.spawn' and e.get('names') and all(x in ('expr', 'sleep') for x in e['names']) and len(e['fids']) == n:
                 blocks[e['block']] = e['fids']
         if len(blocks) != 1:
-            raise common.Infra('lifecycle: cannot identify the block of %r in its log (%d candidates)' % (render(c), len(blocks)))
+            raise common.Infra('lifecycle: cannot identify the block of %r in its log (%d candidates)' % (render(c, slow_of(i, perturb)), len(blocks)))
         (blk, fids), = blocks.items()
         idx = {f: k + 1 for k, f in enumerate(fids)}
-        lines = [{'ev': 'begin', 'prog': c['prog'], 'mode': c['mode'], 'case': i}]
+        lines = [{'ev': 'begin', 'prog': c['prog'], 'mode': c['mode'], 'case': i, 'src': render(c, slow_of(i, perturb))}]
         for e in t['evs']:
             if e['ev'] == 'rm.spawn' and e['block'] == blk:
                 lines.append({'ev': 'rm.spawn'})
@@ -132,8 +137,8 @@ def run_binding(ck, cases, perturb, tag='lc'):
         c = cases[i]
         ck.violation('lifecycle:' + pk(c),
                      'the real scheduler passed its gates in an order that Lifecycle.tla cannot explain: line %d (%s) of the log of `%s`'
-                     % (at, json.dumps(lines[at - 1]) if at <= len(lines) else 'end', render(c)),
-                     {'src': render(c), 'mode': c['mode'], 'log': lines})
+                     % (at, json.dumps(lines[at - 1]) if at <= len(lines) else 'end', lines[0]['src']),
+                     {'src': lines[0]['src'], 'mode': c['mode'], 'log': lines})
     ck.cov['lifecycle_traces_accepted'] = ck.cov.get('lifecycle_traces_accepted', 0) + ok
     ck.cov['lifecycle_events'] = ck.cov.get('lifecycle_events', 0) + sum(len(t) for t in traces.values())
     return ok
